@@ -22,7 +22,7 @@ def rfile(rng):
 EXTRA_FLAVOURS = ["msan"]     # clang MemorySanitizer build of the same driver: reads of uninitialised memory
 
 def gen(rng, tier):
-    n = 2100 if tier == "quick" else 100000
+    n = 4200 if tier == "quick" else 100000
     out = []
     for _ in range(n):
         dl = rng.choice(XDELIMS if rng.random() < 0.3 else gens.DELIMS)
